@@ -25,6 +25,7 @@ DEVS = {  # companion cfg -> (switch, properties one of which TLC must report)
     "MC_Deribit_dev13b.cfg": ("DEV_OversellAccepted", ("Act_C15_NoSellUnheld_", "Act_C15_PositionExact_", "Inv_C03_NonNeg_")),
     "MC_Deribit_dev13c.cfg": ("DEV_BuyDepletesBeforeCashCheck", ("Act_C04_RejectIntact_",)),
     "MC_Deribit_dev14.cfg": ("DEV_LimitRejected", ("Act_C15_LimitOnlyThatLevel_",)),
+    "MC_Deribit_dev14usd.cfg": ("DEV_UsdLimitRejected", ("Act_C15_LimitOnlyThatLevel_",)),
 }
 _NUM = re.compile(r"^-?\d+(/\d+)?$")
 
@@ -132,7 +133,7 @@ def classify_fills(ev, pre_side, got, exp_sum):
         disp.setdefault(p, s)
     if any(p not in disp or a > disp[p] for p, a in got):
         return "within_displayed_size"
-    if ev["mode"] == "lim":
+    if ev["mode"] in ("lim", "limusd"):
         return "limit_only_that_level"
     order = [p for p, s in pre_side if s != 0]
     idx = [order.index(p) for p, _ in got if p in order]
@@ -185,7 +186,7 @@ def replay_states(states, variant="float", stop_after=None) -> Out:
         if last["out"] == "ok" and raised is not None:
             o.count("accepts_valid_order")
             if is_trade:
-                clause = "limit_fills_at_that_level" if mode == "lim" else "accepts_valid_order"
+                clause = "limit_fills_at_that_level" if mode in ("lim", "limusd") else "accepts_valid_order"
                 viol(entry, clause, cls + "_raises_" + raised.split(":")[0], f"spec fills {ev_str(ev)} but the call raised {raised}", j)
             else:
                 o.note("info/non_trade_outcome", f"{ev_str(ev)} raised {raised}")
@@ -242,7 +243,7 @@ def replay_states(states, variant="float", stop_after=None) -> Out:
             side = "asks" if ev["op"] == "buy" else "bids"
             pre_side = before["book"][ev["i"]][side]
             for c in ("fills_sum_is_rounded_request", "within_displayed_size", "best_level_first" if mode == "mkt" else
-                      ("limit_only_that_level" if mode == "lim" else "cap_excludes_worse_levels")):
+                      ("limit_only_that_level" if mode in ("lim", "limusd") else "cap_excludes_worse_levels")):
                 o.count(c)
             if got != want:
                 clause = classify_fills(ev, pre_side, got, round_step(ev["amt"]))
